@@ -49,7 +49,8 @@ def _uses_index(text, var):
 
 
 def probe_loops(d):
-    """-> ([(variant, loop var, slot array, [(path description, lookup calls, slot wanted?)])], notes): one entry per counted loop whose body reads slots[var]"""
+    """-> ([(variant, loop var, slot array, [(lookup calls, slot wanted?)] per path that reaches the next element)], notes): one entry per counted loop whose body reads
+    slots[var] and looks something up for the element on at least one path (the extraction loops)"""
     slots = slot_arrays(d)
     out, notes = [], []
     if not slots:
@@ -81,10 +82,8 @@ def probe_loops(d):
             except (P.Unmodelled, AnalysisError) as e:
                 notes.append('variant %s: loop over %s: %s' % (ch, slot, e))
                 continue
-            rows = []
+            rows, looks_up = [], False
             for state, ex in paths:
-                if ex[0] not in ('fall', 'continue'):
-                    continue                                    # the iteration left the loop (return / goto / break): not a path to the next element
                 keys, slot_alias, arrays_with_key = set(), {'%s[%s]' % (slot, var)}, set()
                 lookups, wanted = [], None
                 for it in timeline(state):
@@ -106,8 +105,11 @@ def probe_loops(d):
                         other = any(re.fullmatch(WORD, a) and a not in keys and a not in arrays_with_key and a != var and a not in ('NULL',) for a in args)
                         if has_key and other:
                             lookups.append('%s(%s)' % (it[1], ', '.join(args)))
-                rows.append((lookups, wanted))
-            out.append((ch, var, slot, rows))
+                looks_up = looks_up or bool(lookups)
+                if ex[0] in ('fall', 'continue'):                # (return / goto / break leave the loop: not a path to the next element)
+                    rows.append((lookups, wanted))
+            if looks_up:                                         # a loop that looks nothing up on any path (initialisation / clean-up of the slots) is not an extraction loop
+                out.append((ch, var, slot, rows))
     return out, notes
 
 
@@ -129,16 +131,29 @@ PROBE_PC_GOOD = '''{
     for (i=0; i<nKeys; ++i) {
         PyObject **subject = subjects[i];
         if (!subject) {
-            int c = contains2(mapping, keys[i]);
+            int c = PyDict_Contains(mapping, keys[i]);
             if (c <= 0) return c;
         } else {
-            PyObject *value = lookup2(mapping, keys[i]);
+            PyObject *value = PyDict_GetItemWithError(mapping, keys[i]);
             if (!value) return -1;
             *subject = value;
         }
     }
     return 1;
 }'''
+
+
+PROBE_PC_MIXED = PROBE_PC_GOOD.replace('PyDict_Contains', 'PySequence_Contains').replace('PyDict_GetItemWithError(mapping, keys[i])', 'call_get(getter, keys[i], marker)')
+
+
+def _protocol_sets(lst):
+    """[(variant, callees on NULL-slot paths, callees on wanted paths)] — concrete-layout API calls (unobservable on an exact dict / list / tuple) left out"""
+    out = []
+    for ch, var, rows in lst:
+        n_set = {lk.split('(')[0] for lookups, wanted in rows if wanted is False for lk in lookups}
+        w_set = {lk.split('(')[0] for lookups, wanted in rows if wanted is True for lk in lookups}
+        out.append((ch, {x for x in n_set if not LAYOUT_API.match(x)}, {x for x in w_set if not LAYOUT_API.match(x)}))
+    return out
 
 
 def _probe_silent_paths(d):
@@ -175,10 +190,25 @@ def rule_probe(ctx, sym=None, floor=40):
                                   'and the lookup (get(), property getter) CPython performs is not made%s' % (
                                       d.name, slot, var, '(on which the slot is NULL — value not wanted)' if wanted is False else '(slot wanted)' if wanted else '',
                                       '' if not ch else ' [variant %s]' % (ch,)))
-    bad = CDeclMock('f', ['PyObject *mapping', 'PyObject *keys[]', 'Py_ssize_t nKeys', 'PyObject **subjects[]'], PROBE_PC_BAD)
-    good = CDeclMock('f', ['PyObject *mapping', 'PyObject *keys[]', 'Py_ssize_t nKeys', 'PyObject **subjects[]'], PROBE_PC_GOOD)
-    r.positive_control(_probe_silent_paths(bad) == [('subjects', False)] and probe_loops(good)[0] and not _probe_silent_paths(good),
-                       '`if (!subject) continue;` before the lookup recognised; contains() for unwanted / get() for wanted values accepted')
+            # which method of the subject is called must not depend on whether the value is wanted (only the dict-only API on an exact dict is unobservable)
+            key2 = '%s:%s:same-protocol:%s' % (CFILE, d.name, slot)
+            r.inst(key2, sample='%s: callees on NULL-slot paths %s, on wanted paths %s' % (d.name, sorted(_protocol_sets(lst)[0][1]) if lst else [], sorted(_protocol_sets(lst)[0][2]) if lst else []))
+            for ch, n_set, w_set in _protocol_sets(lst):
+                if n_set and w_set and n_set != w_set:
+                    r.violate(key2, REL_C, d.line, '%s: for an element of %s[] whose value is not wanted the subject is queried through %s, for a wanted value through %s: whether a '
+                              'sub-pattern is a wildcard changes which method of the subject runs (CPython calls the same lookup — subject.get(key, marker) / getattr — in both cases), so '
+                              'logging / overriding mappings observe other calls and can select another case%s' % (
+                                  d.name, slot, sorted(n_set), sorted(w_set), '' if not ch else ' [variant %s]' % (ch,)))
+                    break
+    params = ['PyObject *mapping', 'PyObject *keys[]', 'Py_ssize_t nKeys', 'PyObject **subjects[]']
+    bad, good, mixed = CDeclMock('f', params, PROBE_PC_BAD), CDeclMock('f', params, PROBE_PC_GOOD), CDeclMock('f', params, PROBE_PC_MIXED)
+
+    def proto(d):
+        return [(n, w) for _, _, slot, rows in [x for x in probe_loops(d)[0]] for _, n, w in _protocol_sets([(None, None, rows)])]
+    r.positive_control(_probe_silent_paths(bad) == [('subjects', False)] and probe_loops(good)[0] and not _probe_silent_paths(good) and
+                       all(n == w for n, w in proto(good)) and any(n and w and n != w for n, w in proto(mixed)),
+                       '`if (!subject) continue;` before the lookup recognised; PyDict_Contains for unwanted / PyDict_GetItem for wanted values of an exact dict accepted; '
+                       'contains() for unwanted / get() for wanted values of a generic mapping recognised')
     # ---------------- node builders
     _probe_python(r, sym)
     return r
@@ -320,7 +350,7 @@ class TypeTests:
     None (not a type test / not resolvable); __Pyx_ names are resolved through their macro / inline definitions in the utility catalogue, all #if variants"""
 
     def __init__(self, ctx):
-        self.ctx, self.memo = ctx, {}
+        self.ctx, self.memo, self.why = ctx, {}, {}
 
     def of_name(self, name, depth=0):
         if name in self.memo:
@@ -341,6 +371,7 @@ class TypeTests:
         if not decls:
             return None
         kinds = set()
+        self.why.pop(name, None)
         for d in decls:
             params = [re.search(r'(%s)\s*$' % WORD, p).group(1) for p in (d.params or []) if re.search(r'(%s)\s*$' % WORD, p)]
             if not params:
@@ -360,6 +391,8 @@ class TypeTests:
             if k is None:
                 return None
             kinds.add(k)
+            if k == 'inexact' and name not in self.why:
+                self.why[name] = 'its definition at %s:%d%s is `%s`' % (d.file, d.line, (' (variant: %s)' % '; '.join(d.conds)) if d.conds else '', ' '.join(text.split()))
         return 'inexact' if 'inexact' in kinds else 'exact'
 
     def of_expr(self, e, obj, depth=0):
@@ -509,7 +542,7 @@ def rule_exact(ctx, floor=3):
                 r.violate(key, REL_C, d.line, '%s hands its parameter `%s` to %s on a path selected only by %s, which also accepts instances of SUBCLASSES: for such a subject the '
                           'concrete-layout API reads the underlying storage and bypasses the methods the subclass overrides (CPython looks keys up through subject.get(), takes '
                           'len(subject), iterates / indexes the subject) — a different case is selected, other values are bound, the overriding methods are not called; only an exact '
-                          'type test (…_CheckExact / Py_IS_TYPE) may select this path' % (d.name, obj, sink, ' and '.join('%s(%s) [%s]' % (p, obj, k) for p, k in g)))
+                          'type test (…_CheckExact / Py_IS_TYPE) may select this path' % (d.name, obj, sink, ' and '.join('%s(%s) [%s%s]' % (p, obj, k, (': ' + tt.why[p]) if p in tt.why else '') for p, k in g)))
     pb = CDeclMock('f', ['PyObject *x', 'Py_ssize_t start', 'Py_ssize_t end'], EXACT_PC_BAD, ret='PyObject *')
     pg = CDeclMock('f', ['PyObject *x', 'Py_ssize_t start', 'Py_ssize_t end'], EXACT_PC_GOOD, ret='PyObject *')
     ob, _ = exact_obligations(pb, tt, {})
